@@ -1403,3 +1403,41 @@ func passedBefore(site ssa.Instruction, gates []ssa.Instruction) bool {
 	}
 	return false
 }
+
+// backwardCtl is backward plus control dependence of phis: when a phi merges
+// values, the conditions of the branches that select its incoming edges are
+// part of what the phi's value depends on.
+func backwardCtl(v ssa.Value, visit func(ssa.Value) bool) {
+	seen := map[ssa.Value]bool{}
+	var walk func(v ssa.Value)
+	walk = func(v ssa.Value) {
+		if v == nil || seen[v] {
+			return
+		}
+		seen[v] = true
+		if !visit(v) {
+			return
+		}
+		if phi, ok := v.(*ssa.Phi); ok {
+			for _, p := range phi.Block().Preds {
+				if ifi, ok := p.Instrs[len(p.Instrs)-1].(*ssa.If); ok {
+					walk(ifi.Cond)
+				}
+				if len(p.Preds) == 1 {
+					q := p.Preds[0]
+					if ifi, ok := q.Instrs[len(q.Instrs)-1].(*ssa.If); ok {
+						walk(ifi.Cond)
+					}
+				}
+			}
+		}
+		if in, ok := v.(ssa.Instruction); ok {
+			for _, op := range in.Operands(nil) {
+				if op != nil && *op != nil {
+					walk(*op)
+				}
+			}
+		}
+	}
+	walk(v)
+}
